@@ -102,6 +102,8 @@ Proof. unfold alen. now rewrite rev_length. Qed.
 
 Lemma nth_mid {A} (p : list A) x q d i : i = length p -> nth i (p ++ x :: q) d = x.
 Proof. intros ->. rewrite app_nth2 by lia. now rewrite Nat.sub_diag. Qed.
+Lemma nth_error_mid {A} (p : list A) x q i : i = length p -> nth_error (p ++ x :: q) i = Some x.
+Proof. intros ->. rewrite nth_error_app2 by lia. now rewrite Nat.sub_diag. Qed.
 Lemma upd_mid {A} (p : list A) x q y i : i = length p -> upd (p ++ x :: q) i y = p ++ y :: q.
 Proof. intros ->. induction p as [|h p IH]; cbn; [reflexivity | now rewrite IH]. Qed.
 Lemma upd_length {A} (l : list A) i y : length (upd l i y) = length l.
